@@ -114,6 +114,10 @@ struct R {
     last_tick: Option<i32>,
     /// session kind `new mixed-uuid-sizes`: UUID types of different item sizes are in play (D25)
     mixed: bool,
+    /// session kind `new refglue`: a protocol-conforming sender that sends `SnapEmpty` ("same as
+    /// base") when the new snapshot equals the base, as the reference server does; the glue of
+    /// server/src/main.rs never does (its written delta is never empty)
+    refglue: bool,
     /// content -> serial number (0 = the empty snapshot), and the hint of the last `snap` for the
     /// Lean driver (only the generator uses it)
     serials: BTreeMap<Vec<i32>, u64>,
@@ -132,7 +136,7 @@ struct R {
 
 impl R {
     fn new() -> R {
-        R { sender: Storage::new(), client: Manager::new(), msgs: vec![], acks: vec![], sent: BTreeMap::new(), last_tick: None, mixed: false, serials: BTreeMap::new(), last_hint: String::new(), garbled: false, client_has: Default::default(), sender_has: Default::default(), sender_base: None, ack_result: None }
+        R { sender: Storage::new(), client: Manager::new(), msgs: vec![], acks: vec![], sent: BTreeMap::new(), last_tick: None, mixed: false, refglue: false, serials: BTreeMap::new(), last_hint: String::new(), garbled: false, client_has: Default::default(), sender_has: Default::default(), sender_base: None, ack_result: None }
     }
 
     fn ack_str(&self) -> String {
@@ -165,11 +169,20 @@ impl R {
         let crc = snap.crc();
         let keep = snap.clone();
         let delta = self.sender.add_snap(tick, snap);
-        let mut buf: Vec<u8> = vec![];
-        buf.reserve(64 * 1024);
-        with_packer(&mut buf, |p| delta.write(obj_size, p)).unwrap();
-        // ---- oracle: the delta turns the base it names into the new snapshot
         let c = canon(&keep);
+        let same_as_base = {
+            let empty = Snap::empty();
+            let base_ints = if delta_tick >= 0 { self.sent.get(&delta_tick).map(|s| s.canon.ints.clone()) } else { Some(canon(&empty).ints) };
+            base_ints.as_ref() == Some(&c.ints)
+        };
+        let mut buf: Vec<u8> = vec![];
+        if !(self.refglue && same_as_base) {
+            buf.reserve(64 * 1024);
+            with_packer(&mut buf, |p| delta.write(obj_size, p)).unwrap();
+        } else {
+            o.count("snap-empty-sent");
+        }
+        // ---- oracle: the delta turns the base it names into the new snapshot
         if api_ok {
             let empty = Snap::empty();
             let base = if delta_tick >= 0 { self.sent.get(&delta_tick).map(|s| &s.snap) } else { Some(&empty) };
@@ -390,19 +403,17 @@ impl Runner for R {
         // drop the hints for the Lean driver
         let t: Vec<&str> = t.iter().cloned().take_while(|x| *x != "|").collect();
         match t.as_slice() {
-            ["new"] => {
+            ["new", flags @ ..] if flags.iter().all(|f| *f == "mixed-uuid-sizes" || *f == "refglue") => {
                 *self = R::new();
-                "ok".to_string()
-            }
-            ["new", "mixed-uuid-sizes"] => {
-                *self = R::new();
-                self.mixed = true;
+                self.mixed = flags.contains(&"mixed-uuid-sizes");
+                self.refglue = flags.contains(&"refglue");
                 "ok".to_string()
             }
             ["snap", tick, items] => match (tick.parse::<i32>().ok(), parse_items(items)) {
                 (Some(tick), Some(items)) => {
                     let mut me = std::mem::replace(self, R::new());
                     let mixed = me.mixed;
+                    let refglue = me.refglue;
                     let r = catch(|| {
                         let line = me.send_snap(tick, &items, o);
                         (me, line)
@@ -426,6 +437,7 @@ impl Runner for R {
                             };
                             o.fail(tag, format!("snap {}: {}", tick, msg));
                             self.mixed = mixed;
+                            self.refglue = refglue;
                             "panic".to_string()
                         }
                     }
@@ -613,10 +625,12 @@ pub fn new_runner() -> Box<dyn Runner> {
     Box::new(R::new())
 }
 
-pub fn gen_session(rng: &mut Rng, w: &mut dyn Write, steps: usize, style: u64, mixed: bool, wipe: bool) {
+pub fn gen_session(rng: &mut Rng, w: &mut dyn Write, steps: usize, style: u64, mixed: bool, wipe: bool, refglue: bool) {
     let mut sim = Sim { r: R::new(), o: Oracle::new() };
-    writeln!(w, "{}", if mixed { "new mixed-uuid-sizes" } else { "new" }).unwrap();
+    let head = format!("new{}{}", if mixed { " mixed-uuid-sizes" } else { "" }, if refglue { " refglue" } else { "" });
+    writeln!(w, "{}", head).unwrap();
     sim.r.mixed = mixed;
+    sim.r.refglue = refglue;
     let mut world = World { items: BTreeMap::new(), mixed };
     let mut tick: i64 = match rng.below(6) {
         0 => 0,
@@ -647,7 +661,10 @@ pub fn gen_session(rng: &mut Rng, w: &mut dyn Write, steps: usize, style: u64, m
             break;
         }
         let big = rng.chance(1, 6) && !silence;
-        if sumfix && step > 0 {
+        if step > 0 && rng.chance(if refglue { 2 } else { 1 }, 5) {
+            // an unchanged world: with acknowledgements flowing the new snapshot equals the base
+            // (a protocol-conforming sender then says "same as base": SnapEmpty)
+        } else if sumfix && step > 0 {
             world.mutate_sum_preserving(rng);
         } else {
             world.mutate(rng, big || sumfix);
@@ -773,11 +790,11 @@ impl Domain for D {
         let sessions = if thorough { 800 } else { 90 };
         for s in 0..sessions {
             let steps = if s % 10 == 9 { 130 } else { rng.range(5, 40) as usize };
-            gen_session(&mut rng, w, steps, s as u64, false, s % 6 == 5);
+            gen_session(&mut rng, w, steps, s as u64, false, s % 6 == 5, s % 3 == 0);
         }
         // UUID types of different sizes: reaches D25 (open finding)
         for s in 0..(if thorough { 60 } else { 8 }) {
-            gen_session(&mut rng, w, 30, s as u64, true, s % 3 == 2);
+            gen_session(&mut rng, w, 30, s as u64, true, s % 3 == 2, s % 2 == 0);
         }
     }
 }
